@@ -515,16 +515,47 @@ func TestC15Handshake(t *testing.T) {
 
 // link is the harness end of an established SP connection.
 type link struct {
-	r    *rig
-	c    net.Conn
-	ws   *wire.WSConn
-	pipe uint32 // mangos' pipe id
+	r     *rig
+	c     net.Conn
+	ws    *wire.WSConn
+	pipe  uint32 // mangos' pipe id
+	split int    // > 0: stream frames are written in pieces of this many bytes (a byte stream may arrive in any pieces)
+}
+
+// pieceWriter writes in small pieces with a short pause in between, so that the receiver sees the
+// length prefix and the payload arrive in several reads.
+type pieceWriter struct {
+	w io.Writer
+	n int
+}
+
+func (pw pieceWriter) Write(b []byte) (int, error) {
+	tot := 0
+	for len(b) > 0 {
+		k := pw.n
+		if k > len(b) {
+			k = len(b)
+		}
+		n, err := pw.w.Write(b[:k])
+		tot += n
+		if err != nil {
+			return tot, err
+		}
+		b = b[k:]
+		if tot <= 24 { // only the prefix region needs the pauses; keep big payloads fast
+			time.Sleep(150 * time.Microsecond)
+		}
+	}
+	return tot, nil
 }
 
 func (l *link) write(p []byte) error {
 	_ = l.c.SetWriteDeadline(time.Now().Add(5 * time.Second))
 	if l.ws != nil {
 		return l.ws.WriteBinary(p)
+	}
+	if l.split > 0 {
+		return wire.WriteFrame(pieceWriter{l.c, l.split}, p, l.r.tr == "ipc")
 	}
 	return wire.WriteFrame(l.c, p, l.r.tr == "ipc")
 }
@@ -726,7 +757,10 @@ func (mc *msgCase) in(payload, wantHdr, wantBody []byte) {
 	r := mc.r
 	who := fmt.Sprintf("%s %s mangos-%ss", r.ctor, r.tr, roleName(r.dial))
 	if err := mc.l.write(payload); err != nil {
-		mc.t.Fatalf("harness: writing a %d byte frame: %v", len(payload), err)
+		// the connection is established and the frame is well-formed: if the write fails, mangos
+		// has hung up in the middle of it
+		stats.Fail(mc.t, mc.key("frame-not-delivered"), mc.doc, "%s: while a well-formed frame of %d bytes was being written (in pieces of %d bytes; 0 = one write) mangos closed the connection: %v", who, len(payload), mc.l.split, err)
+		mc.t.Fatalf("harness: cannot continue after a lost frame")
 	}
 	m, err := r.sock.RecvMsg()
 	if err != nil {
@@ -890,14 +924,23 @@ func messagesCase(t *rapid.T, tr string, dial bool) {
 		}
 	}
 	maskSeed := rapid.Uint32().Draw(t, "mask")
+	split := rapid.SampledFrom([]int{0, 0, 1, 3, 4, 7, 8, 9}).Draw(t, "writeSplit")
 
 	r := newRig(t, ctor, tr, dial)
 	defer r.close()
 	doc := r.doc("TestC15Messages")
 	doc["steps"] = steps
 	doc["mask"] = maskSeed
+	doc["write_split"] = split
 	mc := &msgCase{t: t, r: r, doc: doc}
 	mc.l = r.connect(doc, maskSeed)
+	mc.l.split = split
+	if split > 0 {
+		stats.Class("msg:frames-written-in-pieces")
+		if tc, ok := mc.l.c.(*net.TCPConn); ok {
+			_ = tc.SetNoDelay(true)
+		}
+	}
 	for _, x := range steps {
 		mc.transfer(x)
 	}
